@@ -831,3 +831,49 @@ def c02_gene_type(tier, rng):
                 dis += 1
     return {"obligations": obl, "discharged": dis, "violations": viol[:6], "cases": obl, "exhaustive": True,
             "bound": "%d assignment types x %d gene shapes" % (len(list(T)), len(shapes)), "samples": [{"assignment_type": "inconsistent_ambiguous", "genes": ["g1", "g1"], "gene_type": "inconsistent"}]}
+
+
+# ---- a composite counter hands everything to every member ------------------------------------------------------------------------------------------------
+@finite("C02.composite_forwarding", ["C02", "C09"], note="the real CompositeCounter with 1-3 recording members: every forwarding method (add_read_info, "
+        "add_read_info_raw, add_confirmed_features, add_unassigned, add_unaligned, dump) reaches every member, with the complete arguments - "
+        "for collections (list, tuple, set of feature ids) every member sees all elements")
+def c02_composite_forwarding(tier, rng):
+    lrc = native.repo_import("src/long_read_counter.py")
+    obl = dis = 0
+    viol = []
+
+    class Rec:
+        def __init__(self):
+            self.calls = []
+
+        def __getattr__(self, name):
+            def f(*a, **k):
+                self.calls.append((name, tuple(sorted(x) if isinstance(x, (list, tuple, set, frozenset)) or hasattr(x, "__next__") else x for x in a),
+                                   tuple(sorted(k.items()))))
+            return f
+    feats = ["transcript1.chr1.nic", "transcript2.chr1.nnic", "ENST1"]
+    calls = [("add_read_info", ("ra",), {}), ("add_read_info_raw", ("r1", list(feats), "g1"), {}), ("add_read_info_raw", ("r1", list(feats)), {}),
+             ("add_confirmed_features", (list(feats),), {}), ("add_confirmed_features", (tuple(feats),), {}), ("add_confirmed_features", (set(feats),), {}),
+             ("add_unassigned", (3,), {}), ("add_unassigned", (), {}), ("add_unaligned", (2,), {}), ("dump", (), {})]
+    for n in (1, 2, 3):
+        for name, a, k in calls:
+            obl += 1
+            members = [Rec() for _ in range(n)]
+            comp = lrc.CompositeCounter(list(members))
+            try:
+                getattr(comp, name)(*a, **k)
+                got = [m.calls for m in members]
+            except Exception as e:
+                got = "%s: %s" % (type(e).__name__, e)
+            ref = Rec()
+            getattr(ref, name)(*a, **k)
+            want_args = ref.calls[0][1]
+            ok = isinstance(got, list) and all(len(c) == 1 and c[0][0] == name and c[0][1][:len(want_args)] == want_args for c in got)
+            if ok:
+                dis += 1
+            elif len(viol) < 3:
+                viol.append({"obligation": "C02.composite_forwarding.%s.%d_members.%s" % (name, n, type(a[0]).__name__ if a else "noargs"),
+                             "inputs": {"method": name, "args": [sorted(x) if isinstance(x, set) else x for x in a], "members": n}, "observed": str(got)[:300],
+                             "required": "every member receives %s%s once" % (name, want_args)})
+    return {"obligations": obl, "discharged": dis, "violations": viol, "cases": obl, "exhaustive": True,
+            "bound": "1-3 members x 10 calls", "samples": [{"method": "add_confirmed_features", "members": 2}]}
